@@ -49,20 +49,20 @@ type (
 	ECond struct{ C, A, B Expr }
 )
 
-func (EIdent) expr() {}
-func (EInt) expr()   {}
-func (EStr) expr()   {}
-func (EBool) expr()  {}
-func (EUn) expr()    {}
-func (EBin) expr()   {}
-func (ECall) expr()  {}
+func (EIdent) expr()  {}
+func (EInt) expr()    {}
+func (EStr) expr()    {}
+func (EBool) expr()   {}
+func (EUn) expr()     {}
+func (EBin) expr()    {}
+func (ECall) expr()   {}
 func (EMethod) expr() {}
-func (EIndex) expr() {}
-func (ESlice) expr() {}
-func (EField) expr() {}
-func (EQuant) expr() {}
-func (EOld) expr()   {}
-func (ECond) expr()  {}
+func (EIndex) expr()  {}
+func (ESlice) expr()  {}
+func (EField) expr()  {}
+func (EQuant) expr()  {}
+func (EOld) expr()    {}
+func (ECond) expr()   {}
 
 type stok struct {
 	kind string // id, int, str, chr, op, eof
